@@ -371,6 +371,9 @@ def run(ctx):
     # the copula look-ahead that ends an atom name compares CHARACTER counts (seed c10-k: a byte length hides two-character Han copulas)
     import maps as _m2
     _m2.rule_U_CHARS(ctx)
+    # the look-ahead list that ends an atom name must contain every copula, else a Han derived copula is read as name + basic copula
+    # (seed c10-n: copula_equivalence_retrospective missing from NarseseFormat::copulas())
+    maps.rule_K_COPULAS(ctx)
     ctx.undecided = ["nothing value-dependent: the desugaring and index rules are shape facts; std's usize::from_str is trusted for the decimal syntax"]
     ctx.assumptions = ["Iterator::position returns the first index satisfying the predicate (std)", "usize::from_str parses decimal"]
     ctx.trusted = ["rustc nightly front end / MIR", "mirfacts driver", "python rule layer"]
